@@ -91,7 +91,21 @@ public:
 
     auto ret = UNSAFE_unverified();
     if (ret != nullptr) {
-      size_t bytes = sizeof(T) * count;
+      // Size of one pointee. Fundamental and pointer types are sized as they
+      // are laid out in sandbox memory, structs conservatively with the
+      // application's size. Pointers to void, functions or incomplete types
+      // are counted in bytes
+      size_t el_size = 1;
+      using T_El = std::remove_cv_t<T_Pointed>;
+      if constexpr (detail::is_basic_type_v<T_El> && !std::is_void_v<T_El>) {
+        el_size = sizeof(tainted_volatile<T_El, T_Sbx>);
+      } else if constexpr (detail::is_complete_object_v<T_El>) {
+        el_size = sizeof(T_El);
+      }
+      detail::dynamic_check(
+        count <= std::numeric_limits<size_t>::max() / el_size,
+        "unverified_safe_pointer_because: element count too large");
+      size_t bytes = el_size * count;
       detail::check_range_doesnt_cross_app_sbx_boundary<T_Sbx>(ret, bytes);
     }
     return ret;
